@@ -2,8 +2,15 @@
 package checks
 
 import (
+	"bytes"
+	"crypto/ecdsa"
+	"crypto/x509"
 	"encoding/hex"
 	"fmt"
+	"math/big"
+
+	"github.com/google/go-tdx-guest/testing/testdata"
+	"verifharness/ref"
 
 	"verifharness/world"
 )
@@ -48,4 +55,28 @@ var cryptoAssume = []string{
 	"ECDSA P-256, SHA-256/384 and Go's crypto/x509 path building are trusted, not explored",
 	"data values outside the stated alphabets are not covered",
 	"the driver's private look-alike PKI stands in for Intel's (same names, extension layout, URL scheme; different keys)",
+}
+
+// embeddedIntelRoot is Intel's real SGX Root CA, taken from the sample quote's chain.
+func embeddedIntelRoot() []*x509.Certificate {
+	p, err := ref.ParseQuote(testdata.RawQuote)
+	if err != nil {
+		return nil
+	}
+	ders := ref.ChainDERs(bytes.TrimRight(p.Chain, "\x00"))
+	if len(ders) != 3 {
+		return nil
+	}
+	c, err := x509.ParseCertificate(ders[2])
+	if err != nil {
+		return nil
+	}
+	return []*x509.Certificate{c}
+}
+
+func pubX(c *x509.Certificate) *big.Int {
+	if pk, ok := c.PublicKey.(*ecdsa.PublicKey); ok {
+		return pk.X
+	}
+	return new(big.Int)
 }
